@@ -64,6 +64,7 @@ pub struct SinkState {
     pub rng: crate::util::Rng,
     pub interrupted_run: u32,
     pub record_events: bool,
+    pub vectored_calls: u64,
 }
 
 #[derive(Clone)]
@@ -86,6 +87,7 @@ impl RecSink {
             rng: crate::util::Rng::new(seed),
             interrupted_run: 0,
             record_events: true,
+            vectored_calls: 0,
         })))
     }
     pub fn set_seq(&self, seq: u32) {
@@ -172,6 +174,13 @@ impl Write for RecSink {
                 Err(io::Error::new(KINDS[kind % KINDS.len()], msg))
             }
         }
+    }
+    /// A real gathering sink: the slices are taken as one contiguous offer, the fault schedule
+    /// decides how much of it is accepted, and the accepted count may end inside any slice.
+    fn write_vectored(&mut self, bufs: &[io::IoSlice<'_>]) -> io::Result<usize> {
+        let joined: Vec<u8> = bufs.iter().flat_map(|b| b.iter().copied()).collect();
+        self.0.lock().unwrap().vectored_calls += 1;
+        self.write(&joined)
     }
     fn flush(&mut self) -> io::Result<()> {
         let mut st = self.0.lock().unwrap();
